@@ -1819,7 +1819,10 @@ def check_C20(ck):
     # both sides of the 512-element split of aggregate
     big = [(23, 23, [(0, 0), (22, 22)])] if ck.tier == "quick" else [(22, 23, []), (23, 23, [(3, 4)]), (24, 22, [(0, 0)]), (32, 33, [(31, 32), (7, 7)])]
     cases += big
-    programs = [("ud%d" % i, hprog.prog_use_definitions(nl, nr, holes)) for i, (nl, nr, holes) in enumerate(cases)]
+    forms = ["member", "pointer", "reference"]
+    form_of = [forms[i % 3] for i in range(len(cases))]
+    form_of[-len(big):] = ["member"] * len(big)      # the large products keep the cheapest form to compile
+    programs = [("ud%d" % i, hprog.prog_use_definitions(nl, nr, holes, form_of[i])) for i, (nl, nr, holes) in enumerate(cases)]
     # aggregate on its own, around every level of the 512-element split (odd and even sizes)
     agg_sizes = [0, 1, 2, 511, 512, 513, 514, 1025, 1026, 1027, 2051] + ([] if ck.tier == "quick" else [1023, 1024, 1539, 3001, 4099])
     agg_programs = [("agg%d" % n_, hprog.prog_aggregate(n_)) for n_ in agg_sizes]
@@ -1856,12 +1859,12 @@ def check_C20(ck):
                     "property": "C20", "kind": ("failing input: use_definitions did not register exactly the defined combinations" if found else
                                                 "correspondence broken: generated program and model differ (or the program does not compile / crashed)"),
                     "lists": [nl, nr], "not_defined": holes, "program_output": got[:3], "model": want[:3], "rc": rc, "stderr": se[-1500:],
-                    "program": "tools/hprog.py prog_use_definitions(%d, %d, %r)" % (nl, nr, holes)})
+                    "program": "tools/hprog.py prog_use_definitions(%d, %d, %r, %r)" % (nl, nr, holes, form_of[int(name[2:])])})
                 ck.violation(path, found)
     ck.coverage = proof_coverage(ck, ["C20"], {
         "evaluations": len(cases), "distinct_nontrivial": len({repr(c) for c in cases if c[0] * c[1] > 1}),
         "programs": len(cases), "disagreements_checked": bad,
-        "rule": "generated programs: a 2-method over Base with leaf classes L<i>, R<j>, a definition template specialised to not_defined on a random subset, "
+        "rule": "generated programs: a 2-method over Base with leaf classes L<i>, R<j>, a definition template (providing fn as a static member function, a constexpr function pointer or a function reference, in turn) specialised to not_defined on a random subset, "
                 "use_definitions over product<types<M>, Ls, Rs>; the program prints the compile-time product in order, the definitions found in the method's "
                 "catalog and the result of dispatching through every combination; the model predicts all three. Sizes 1..7 per list plus products on both sides of the 512 split (with an odd number of kept combinations); "
                 "plus aggregate alone over n trivial elements for n around every level of the split, counting constructions per element",
